@@ -2,6 +2,9 @@ package interp
 
 import (
 	"fmt"
+	"strings"
+
+	"github.com/lmorg/murex/builtins/pipes/streams"
 
 	"verif/sched"
 	"verif/vlib"
@@ -25,6 +28,18 @@ var c03Quick = []string{
 	"false || out e -> cast str",
 	"switch { case { false } { out 1 } default { out 2 } }",
 }
+
+// programs run with an 8-byte back-pressure limit (package variable streams.DefaultMaxBufferSize, the
+// same code path as the 1 MiB production limit) so that writers block on full pipes
+var c03SmallBuf = []string{
+	// foreach writes one element per Write call, so its stdout pipe fills up and the writer blocks
+	"a [1..9] -> foreach v { out $v } -> set x; out $x",
+	"a [1..9] -> foreach v { out $v } -> count",
+	"a [1..9] -> foreach v { out $v } -> regexp m/[3-6]/",
+	"a [1..9] -> set v; out $v",
+}
+
+const smallBufPrefix = "[8-byte pipes] "
 
 func c03Programs(quick bool) []string {
 	if quick {
@@ -62,7 +77,16 @@ func c03Scenario(prog string, free Result) *sched.Scenario {
 		done := false
 		body := func() {
 			ResetGlobals()
-			res = RunBlock(prog, "verif/c03")
+			src := prog
+			var after func()
+			if strings.HasPrefix(prog, smallBufPrefix) {
+				src = strings.TrimPrefix(prog, smallBufPrefix)
+				// only the pipes created while the block runs are small: the block's own stdout/stderr,
+				// which the harness drains after Execute returns, keep the production size
+				after = func() { streams.DefaultMaxBufferSize = 8 }
+				defer func() { streams.DefaultMaxBufferSize = prodMaxBuf }()
+			}
+			res = RunBlockWith(src, "verif/c03", after)
 			done = true
 		}
 		fin := func(e *vsched.Execution) sched.Outcome {
@@ -84,12 +108,20 @@ func c03Scenario(prog string, free Result) *sched.Scenario {
 	}}
 }
 
+var prodMaxBuf = streams.DefaultMaxBufferSize
+
 func c03Scenarios(quick bool) []*sched.Scenario {
 	var out []*sched.Scenario
-	for _, p := range c03Programs(quick) {
+	progs := c03Programs(quick)
+	for _, p := range c03SmallBuf {
+		progs = append(progs, smallBufPrefix+p)
+	}
+	for _, p := range progs {
 		ResetGlobals()
-		free := RunBlock(p, "verif/c03")
-		free2 := RunBlock(p, "verif/c03")
+		// the reference result is the free-running one with production-size pipes
+		src := strings.TrimPrefix(p, smallBufPrefix)
+		free := RunBlock(src, "verif/c03")
+		free2 := RunBlock(src, "verif/c03")
 		if free != free2 {
 			// a program whose free-running result is not even repeatable is itself a finding
 			free.Err = "<<unstable free-running result>>" + free.Err
